@@ -3,10 +3,11 @@
   defines `handle : String → Spec.Req → Option String` and is listed here.
 -/
 import Spec.Judge
+import Spec.Vector
 
 namespace Spec
 
-def handlers : List (String → Req → Option String) := [handleCore]
+def handlers : List (String → Req → Option String) := [handleCore, Vector.handle]
 
 def judgeLine (line : String) : String :=
   let (cmd, r) := parseReq line
